@@ -217,12 +217,9 @@ example : 2 ≤ (auCases.filter (fun c => hasData [.term 2 auN [] [49], .term 3 
 
 The families below are composed over the whole tree into `validate_ok_iff_valid` (end of this file) for plain schemas, i.e. schemas
 without non-presence containers, `choice` / `case`, `default` and `unique` (`PlainSane`).
--- OPEN: `validate_ok_iff_valid` for schemas with `choice` / `case`, `default`, `unique` and non-presence containers (implicit
--- data interleaves with the checks; the F175 / F180 / F188 variants of the code violate it there).  For that class the iff is
--- evaluated on the implementation (law `iff` of tools/checks/c02.py, both directions, every run) and the model is compared with
--- the specification by the `spec` operation; what is proved is the family-level equivalences of this table.
--- OPEN: `validate_error_tag` beyond plain schemas, and `verdict_order_independent` (the verdict is invariant under reordering
--- the siblings) are laws (`tag`, `apptag`, `order`) only.
+-- The same two theorems for the FULL schema language (choice / case, default, unique, non-presence containers), and
+-- `verdict_order_independent`, are in `Props/C02Full.lean` (`validate_ok_iff_valid_full`, `validate_error_tag_full`); what stays OPEN
+-- is listed there (instances with an empty non-presence container node; `LYD_VALIDATE_OPERATIONAL` beyond `operational_relaxes`).
 
 | family (error kind)              | theorem                                   | RFC 7950 |
 |----------------------------------|-------------------------------------------|----------|
